@@ -35,6 +35,9 @@ func main() {
 	root := os.Getenv("FP_ROOT")
 	if root == "" {
 		root = "/repo"
+		if r := os.Getenv("VERIF_REPO"); r != "" {
+			root = r
+		}
 	}
 	for _, a := range os.Args[1:] {
 		i := strings.LastIndex(a, ":")
